@@ -163,9 +163,9 @@ type thread struct {
 }
 
 type scenario struct {
-	name    string
-	mk      func() (threads []thread, operands []*Dec)
-	thr     thrAssign
+	name string
+	mk   func() (threads []thread, operands []*Dec)
+	thr  thrAssign
 }
 
 type execResult struct {
@@ -450,8 +450,8 @@ func schedLayers(tier string) []Layer {
 		units = append(units, unit{i, false}, unit{i, true})
 	}
 	return []Layer{{
-		Name:  "Z1-schedules",
-		Units: len(units),
+		Name:   "Z1-schedules",
+		Units:  len(units),
 		Bounds: "8 scenarios of 2–3 goroutines, each one operation with its own receiver on shared 3–5-word operands (thresholds 2/1/4 so that Karatsuba, squaring and long division use pooled scratch buffers); level A: scheduling points before and after every pool Get/Put, all interleavings for 2 threads (preemption bound 6; 3 threads: 3) × pool-answer deviations <= 2; level B: additionally a point before every arithmetic kernel call, preemption bound 2 (quick) / 3 (thorough), pool deviations <= 1; adversarial pool (garbage on Get, poison on Put, ownership tracking); oracle: each thread's result == its sequential result, operands unchanged, no panic, pool protocol respected",
 		Run: func(c *Ctx, u int) {
 			if !poolSeamsPresent() {
